@@ -1,4 +1,5 @@
 import Driver.Solver
+import Driver.Parser
 /-
 Correspondence driver.  `.lake/build/bin/fsicdrv < requests > replies`  (or `lake env lean --run Main.lean`)
 Each request line is `<kind>\t<json>`; each reply is one line (`!<message>` on a malformed request).
@@ -8,6 +9,7 @@ open Lean
 
 def allHandlers : List (String × (Json → Except String String)) :=
   Drv.Solver.handlers
+  ++ Drv.Parser.handlers
 
 def dispatch (kind : String) (j : Json) : Except String String :=
   match allHandlers.lookup kind with
